@@ -636,7 +636,7 @@ def json_parsed(text):
 def check_json(text_res, expected, html_safe):
     """-> None when fine, else a short reason"""
     if text_res[0] != 'ok':
-        return "rendering failed with %s" % ERR_NAMES.get(text_res[1], text_res[1])
+        return "rendering panicked" if text_res[1] == 98 else "rendering failed with %s" % ERR_NAMES.get(text_res[1], text_res[1])
     text = text_res[1]
     if html_safe:
         for ch in "<>&'":
@@ -770,7 +770,7 @@ def parse_prog(out):
 def evaluate_progs(chk, cases, progs, A):
     """re-entrancy clause: every conversion (outermost or nested, on this or another thread, succeeding, failing or panicking)
     leaves the thread's serialization state as it found it; embedded values come back identical wherever they stand"""
-    impl = {rel: run_impl("c16", cases, release=rel) for rel in (False, True)}
+    impl = {rel: guarded_impl(cases, rel) for rel in (False, True)}
     model = run_model("C16", "c16-prog", cases)
     spec = run_model("C16", "c16-prog-spec", cases)
     for i, c in enumerate(cases):
@@ -788,6 +788,7 @@ def evaluate_progs(chk, cases, progs, A):
         if nested: A["nontriv"].add(hashlib.sha256(fmt_case(c).encode()).digest()[:12])
         for rel in (False, True):
             prof = "release" if rel else "debug"
+            if impl[rel][i][:1] == ["SKIPPED"]: continue
             got = parse_prog(impl[rel][i])
             if got != mo:
                 A["corr_bad"].append((c, prof, "nested conversions", impl[rel][i], model[i]))
@@ -796,6 +797,9 @@ def evaluate_progs(chk, cases, progs, A):
                     why = "conversion crashed or gave an unreadable answer: %r" % (impl[rel][i][:3],)
                 elif [f for _, f in got[:-1]] + [got[-1]] != [0] * len(got):
                     why = "serializing_for_value() is still true after a conversion finished"
+                elif n is not None and any(has_kind(t, (N_LEAK, N_FLATTEN)) for t in n):
+                    why = ("after a conversion on the same thread left a value handle behind, an embedded template value did not come back as the "
+                           "very same value (a stale or lossy value instead)")
                 else:
                     why = ("an embedded template value did not come back as the very same value (or serializing_for_value() was false) "
                            "inside a conversion whose Serialize impls convert other data")
@@ -877,10 +881,10 @@ def flat_ints(sh):
 
 
 def evaluate_json_exprs(chk, cases, meta, A):
-    impl = {rel: run_impl("c16", cases, release=rel) for rel in (False, True)}
+    impl = {rel: guarded_impl(cases, rel) for rel in (False, True)}
     arr_idx, arr_cases = [], []
     for i, c in enumerate(cases):
-        d = parse_json_expr(impl[False][i])
+        d = parse_json_expr(impl[False][i]) if impl[False][i][:1] != ["SKIPPED"] else None
         if d and flat_ints(d["shape"]):
             arr_idx.append(i); arr_cases.append([1, len(d["shape"][2])] + [t for x in d["shape"][2] for t in enc_str(str(x[1]))])
     arr_model = dict(zip(arr_idx, run_model("C16", "c16-array", arr_cases))) if arr_idx else {}
@@ -889,6 +893,7 @@ def evaluate_json_exprs(chk, cases, meta, A):
         expr, data = meta[i]
         for rel in (False, True):
             prof = "release" if rel else "debug"
+            if impl[rel][i][:1] == ["SKIPPED"]: continue
             d = parse_json_expr(impl[rel][i])
             if d is None:
                 if impl[rel][i][:1] == [1]:
@@ -914,6 +919,41 @@ def evaluate_json_exprs(chk, cases, meta, A):
             if not rel:
                 A["hist"]["jsonexpr:checked"] += 1
                 A["nontriv"].add(hashlib.sha256(fmt_case(c).encode()).digest()[:12])
+
+
+# ------------------------------------------------------------------------------------------
+# running the implementation under resource limits (a broken tree may loop or eat memory)
+# ------------------------------------------------------------------------------------------
+MAX_CRASHES = 4
+_crashes = {False: 0, True: 0}
+
+
+def guarded_impl(cases, release):
+    """Like vlib.run_impl, but every harness process runs under `prlimit` (4 GiB address space, 60 s CPU) with a wall-clock
+    timeout, and after MAX_CRASHES dead processes per profile the remaining cases of that profile are not run any more
+    (they are reported as ['SKIPPED']; the crashes themselves are violations)."""
+    cmd = ["prlimit", "--as=%d" % (4 << 30), "--cpu=60", bin_path("c16", release)]
+    out, i = [], 0
+    while i < len(cases):
+        if _crashes[release] >= MAX_CRASHES:
+            out += [["SKIPPED"]] * (len(cases) - i)
+            break
+        batch = cases[i:i + (1000 if _crashes[release] == 0 else 50)]
+        rc, o, e = sh(cmd, inp="\n".join(fmt_case(c) for c in batch) + "\n", timeout=90)
+        lines = o.split("\n")
+        if lines and lines[-1] == "": lines.pop()
+        got = [parse_line(l) for l in lines[:len(batch)]]
+        out += got; i += len(got)
+        if len(got) < len(batch):            # the process died or hung; its buffered output is lost: find the case one by one
+            for c in batch[len(got):len(got) + 400]:
+                rc1, o1, e1 = sh(cmd, inp=fmt_case(c) + "\n", timeout=20)
+                if o1.strip():
+                    out.append(parse_line(o1.split("\n")[0])); i += 1
+                else:
+                    _crashes[release] += 1
+                    out.append(["CRASH", rc1, (e1 or "")[-200:]]); i += 1
+                    break
+    return out[:len(cases)]
 
 
 # ------------------------------------------------------------------------------------------
@@ -1073,7 +1113,7 @@ def main():
 def evaluate(cases, trees, A, kernel=False):
     """runs one chunk of cases through implementation (debug, release) and model, applies correspondence and oracle"""
     hist, nontriv, corr_bad, viol, py_spec_bad = A["hist"], A["nontriv"], A["corr_bad"], A["viol"], A["py_spec_bad"]
-    impl = {rel: run_impl("c16", cases, release=rel) for rel in (False, True)}
+    impl = {rel: guarded_impl(cases, rel) for rel in (False, True)}
     model = run_model("C16", "c16", cases)
     spec = run_model("C16", "c16-spec", cases)
     str_idx = [i for i, c in enumerate(cases) if tid_of(c) == STRING_TID]
@@ -1099,6 +1139,7 @@ def evaluate(cases, trees, A, kernel=False):
         hist["type:" + name] += 0
         for rel in (False, True):
             prof = "release" if rel else "debug"
+            if impl[rel][i][:1] == ["SKIPPED"]: continue
             d = parse_impl(impl[rel][i])
             if "bad" in d:
                 if impl[rel][i][:1] == [7]:
